@@ -3,6 +3,7 @@ import Deb822Verif.Props.C03
 import Deb822Verif.Props.C08
 import Deb822Verif.Props.C16
 import Deb822Verif.Gen.Structs
+import Deb822Verif.Lemmas.DebReaderCanon
 /-!
 # C20 — typed lossy documents are stable under print/reparse and match the lossless view
 -/
@@ -49,8 +50,8 @@ theorem join_splitOn (v : Str) : Text.join ['\n'] (Text.splitOn '\n' v) = v := b
 def CanonD (D : Doc) : Prop :=
   ∀ p ∈ D, p ≠ [] ∧ ∀ f ∈ p, ValidKey f.1 ∧ CanonLines (Text.splitOn '\n' f.2)
 
-/-- no value starts with an empty line (the lossless reader does not show such a line) -/
-def NoBlankFirst (D : Doc) : Prop := ∀ p ∈ D, ∀ f ∈ p, (Text.splitOn '\n' f.2).head? ≠ some []
+/-- no non-empty value starts with an empty line (the lossless reader does not show such a line) -/
+def NoBlankFirst (D : Doc) : Prop := ∀ p ∈ D, ∀ f ∈ p, (Text.splitOn '\n' f.2).head? = some [] → f.2 = []
 
 def fieldL (f : Field) : C08.FieldL := (f.1, Text.splitOn '\n' f.2)
 
@@ -100,16 +101,18 @@ theorem read_printDoc (D : Doc) (h : CanonD D) : Lossy.read (printDoc D) = .ok D
   have := (C08.C08_roundtrip (toDocL D) (canonDoc_toDocL D h)).1
   rwa [lossyOfDocL_toDocL D (fun p hp => (h p hp).1)] at this
 
-theorem entryOf_content (k : Str) (ls : List Str) (h : ls.head? ≠ some []) (hne : ls ≠ []) :
+theorem entryOf_content (k : Str) (ls : List Str) (h : ls.head? ≠ some [] ∨ ls = [[]]) (hne : ls ≠ []) :
     (C08.entryOf k ls).content = (k, C08.valueOf ls) := by
-  cases ls with
-  | nil => exact absurd rfl hne
-  | cons a r =>
-    have ha : a ≠ [] := by intro e; apply h; simp [e]
-    simp [EntryS.content, EntryS.valueLines, C08.entryOf, C08.valueOf, ha, List.map_map, Function.comp_def]
+  rcases h with h | rfl
+  · cases ls with
+    | nil => exact absurd rfl hne
+    | cons a r =>
+      have ha : a ≠ [] := by intro e; apply h; simp [e]
+      simp [EntryS.content, EntryS.valueLines, C08.entryOf, C08.valueOf, ha, List.map_map, Function.comp_def]
+  · simp [EntryS.content, EntryS.valueLines, C08.entryOf, C08.valueOf, Text.join]
 
 theorem paraOf_content (f : C08.FieldL) (fs : List C08.FieldL)
-    (h : ∀ g ∈ f :: fs, g.2.head? ≠ some [] ∧ g.2 ≠ []) :
+    (h : ∀ g ∈ f :: fs, (g.2.head? ≠ some [] ∨ g.2 = [[]]) ∧ g.2 ≠ []) :
     (C08.paraOf f fs).content = C08.fieldOf f :: fs.map C08.fieldOf := by
   have hf := h f (by simp)
   simp only [ParaS.content, C08.paraOf, entryOf_content _ _ hf.1 hf.2, C08.fieldOf, List.map_map]
@@ -127,7 +130,7 @@ theorem paraOf_content (f : C08.FieldL) (fs : List C08.FieldL)
       entryOf_content _ _ hg.1 hg.2, List.singleton_append, this, C08.fieldOf]
 
 theorem docOf_content (d : C08.DocL)
-    (h : ∀ p ∈ d, ∀ g ∈ p.1 :: p.2, g.2.head? ≠ some [] ∧ g.2 ≠ []) :
+    (h : ∀ p ∈ d, ∀ g ∈ p.1 :: p.2, (g.2.head? ≠ some [] ∨ g.2 = [[]]) ∧ g.2 ≠ []) :
     (⟨[], C08.docOf d⟩ : DocS).content = C08.lossyOfDocL d := by
   simp only [DocS.content, C08.lossyOfDocL]
   induction d with
@@ -140,6 +143,12 @@ theorem docOf_content (d : C08.DocL)
     | cons q d =>
       simp only [C08.docOf, List.map_cons] at ihd ⊢
       rw [paraOf_content _ _ hp, ihd]
+
+theorem blank_cases (f : Field) (h : (Text.splitOn '\n' f.2).head? = some [] → f.2 = []) :
+    (fieldL f).2.head? ≠ some [] ∨ (fieldL f).2 = [[]] := by
+  by_cases hh : (Text.splitOn '\n' f.2).head? = some []
+  · right; simp [fieldL, h hh, Text.splitOn]
+  · left; exact hh
 
 /-- **lossless reader** on the printed text of a canonical document whose values do not start with
     an empty line: it is accepted and shows exactly the same (name, value) lists -/
@@ -167,8 +176,8 @@ theorem readStrict_printDoc (D : Doc) (h : CanonD D) (hb : NoBlankFirst D) :
       · intro g hg
         simp only [List.mem_cons, List.mem_map] at hg
         rcases hg with rfl | ⟨g', hg', rfl⟩
-        · exact ⟨hb (f :: fs) (by simp) f (by simp), splitOn_ne_nil _ _⟩
-        · exact ⟨hb (f :: fs) (by simp) g' (by simp [hg']), splitOn_ne_nil _ _⟩
+        · exact ⟨blank_cases _ (hb (f :: fs) (by simp) f (by simp)), splitOn_ne_nil _ _⟩
+        · exact ⟨blank_cases _ (hb (f :: fs) (by simp) g' (by simp [hg'])), splitOn_ne_nil _ _⟩
       · exact ih (fun q hq => h q (by simp [hq])) (fun q hq => hb q (by simp [hq])) q hq
 
 /-! ## Part B — stability: `TypedDoc.parse (TypedDoc.print v) = ok v` (hence the second TypedDoc.print is identical) -/
@@ -1512,5 +1521,854 @@ theorem C20_table_dep3_strings :
       (kAuthor ∈ s.fields.map (·.key) ∧ kDescription ∈ s.fields.map (·.key))
       ∧ ∀ f ∈ s.fields, (f.key = kAuthor ∨ f.key = kDescription) → f.ser = [] ∧ f.de = [] ∧ f.ty = c!"String" := by
   decide +kernel
+
+/-! ## Part I — parse outputs print canonically: unconditional round trip for the lossless-reader kinds -/
+
+/-- a value text that prints canonically and that the lossless reader shows unchanged -/
+def GoodText (v : Str) : Prop :=
+  CanonLines (Text.splitOn '\n' v) ∧ ((Text.splitOn '\n' v).head? = some [] → v = [])
+
+theorem goodText_nil : GoodText [] := by
+  refine ⟨?_, fun _ => rfl⟩
+  have : Text.splitOn '\n' ([] : Str) = [[]] := by simp [Text.splitOn]
+  rw [this]
+  exact ⟨by simp, by intro l hl; simp at hl; subst hl; intro c hc; simp at hc,
+    by intro c hc; simp at hc, by simp⟩
+
+/-- what the lossless reader returns is good text (`readStrict_fields`) -/
+theorem goodText_of_goodLines (L : List Str) (h : GoodLines L) : GoodText (Text.join ['\n'] L) := by
+  cases L with
+  | nil => simpa [Text.join] using goodText_nil
+  | cons a r =>
+    have hnl : ∀ l ∈ a :: r, '\n' ∉ l := by
+      intro l hl hm
+      have := (h.1 l hl).2.1 _ hm
+      simp [isNewline] at this
+    rw [GoodText, C06.splitOn_join _ (by simp) hnl]
+    refine ⟨⟨by simp, fun l hl => (h.1 l hl).2.1, ?_, ?_⟩, ?_⟩
+    · intro c hc
+      simp only [List.head?_cons, Option.bind_some] at hc
+      exact (h.1 a (by simp)).2.2 c hc
+    · intro l hl
+      simp only [List.tail_cons] at hl
+      have hp := h.1 l (by simp [hl])
+      obtain ⟨c, cs, hcs⟩ : ∃ c cs, l = c :: cs := by
+        cases l with
+        | nil => exact absurd rfl hp.1
+        | cons c cs => exact ⟨c, cs, rfl⟩
+      refine ⟨hp.2.1, c, cs, hcs, hp.2.2 c (by rw [hcs]; rfl), ?_⟩
+      intro hc
+      have := h.2 l (by simpa using hl)
+      apply this; rw [hcs, hc]; rfl
+    · intro hh
+      simp only [List.head?_cons, Option.some.injEq] at hh
+      exact absurd hh (h.1 a (by simp)).1
+
+theorem goodText_of_goodField (f : Str × Str) (h : GoodField f) : ValidKey f.1 ∧ GoodText f.2 := by
+  obtain ⟨hk, L, hv, hL⟩ := h
+  exact ⟨hk, by rw [hv]; exact goodText_of_goodLines L hL⟩
+
+/-- per field: the key is a valid name, re-reading the printed form of a read value gives that
+    value, and the printed form of a value read from good text is good text -/
+structure FieldOK (f : FieldSpec Val) : Prop where
+  validKey : ValidKey f.key
+  stable : ∀ t y, f.de t = .ok y → f.de (f.ser y) = .ok y
+  canon : ∀ t y, GoodText t → f.de t = .ok y → GoodText (f.ser y)
+
+structure SpecOK (spec : Spec) : Prop where
+  nodup : (specKeys spec).Nodup
+  fields : ∀ f ∈ spec, FieldOK f
+
+theorem fromFields_good (g : Str → Option Str) (spec : Spec) (v : SV)
+    (hg : ∀ k t, g k = some t → GoodText t) (hs : ∀ f ∈ spec, FieldOK f)
+    (h : fromFields g spec = .ok v) :
+    WellFormed spec v ∧ CodecsRoundTrip spec v
+    ∧ ∀ e ∈ toFields spec v, ValidKey e.1 ∧ GoodText e.2 := by
+  induction spec generalizing v with
+  | nil => simp [fromFields] at h; subst h; simp [WellFormed, CodecsRoundTrip, toFields]
+  | cons f fs ih =>
+    simp only [fromFields] at h
+    cases hr : readField g f with
+    | error e => rw [hr] at h; simp at h
+    | ok x =>
+      rw [hr] at h
+      simp only at h
+      cases hf : fromFields g fs with
+      | error e => rw [hf] at h; simp at h
+      | ok xs =>
+        rw [hf] at h
+        simp only [Except.ok.injEq] at h
+        subst h
+        obtain ⟨i1, i2, i3⟩ := ih xs (fun f' hf' => hs f' (by simp [hf'])) hf
+        have hfo := hs f (by simp)
+        unfold readField at hr
+        cases hgk : g f.key with
+        | none =>
+          rw [hgk] at hr
+          cases ho : f.optional with
+          | false => simp [ho] at hr
+          | true =>
+            simp [ho] at hr; subst hr
+            exact ⟨⟨by simp [ho], i1⟩, i2, i3⟩
+        | some t =>
+          rw [hgk] at hr
+          cases hd : f.de t with
+          | error e => simp [hd] at hr
+          | ok y =>
+            simp [hd] at hr; subst hr
+            refine ⟨⟨by simp, i1⟩, ⟨hfo.stable t y hd, i2⟩, ?_⟩
+            intro e he
+            simp only [toFields, List.mem_cons] at he
+            rcases he with rfl | he
+            · exact ⟨hfo.validKey, hfo.canon t y (hg _ _ hgk) hd⟩
+            · exact i3 e he
+
+/-- the texts a paragraph of an accepted document shows are good -/
+theorem get_goodText (p : DNode) (hp : ∀ f ∈ items p, GoodField f) :
+    ∀ k t, Deb.get p k = some t → GoodText t := by
+  intro k t h
+  rw [get_eq_lookup] at h
+  simp only [lookupFirst, Option.map_eq_some_iff] at h
+  obtain ⟨f, hf, rfl⟩ := h
+  exact (goodText_of_goodField f (hp f (List.mem_of_find?_eq_some hf))).2
+
+/-- one paragraph read by `from_paragraph`: the value is `Good` and its printed paragraph canonical -/
+theorem fromLL_good (spec : Spec) (hs : SpecOK spec) (p : DNode) (hp : ∀ f ∈ items p, GoodField f)
+    (v : SV) (h : fromLL spec p = .ok v) :
+    Good spec v ∧ ∀ e ∈ paraOf spec v, ValidKey e.1 ∧ GoodText e.2 := by
+  have hff : fromFields (Deb.get p) spec = .ok v := by
+    unfold fromLL liftMsg at h
+    cases hf : fromFields (Deb.get p) spec with
+    | ok x => rw [hf] at h; simp at h; rw [h]
+    | error e => rw [hf] at h; simp at h
+  obtain ⟨h1, h2, h3⟩ := fromFields_good _ spec v (get_goodText p hp) hs.fields hff
+  exact ⟨⟨hs.nodup, h1, h2⟩, h3⟩
+
+/-- paragraphs of a list of read values form a canonical document, provided none prints empty -/
+theorem printsCanon_of_paras (D : Doc) (h : ∀ p ∈ D, p ≠ [] ∧ ∀ e ∈ p, ValidKey e.1 ∧ GoodText e.2) :
+    CanonD D ∧ NoBlankFirst D :=
+  ⟨fun p hp => ⟨(h p hp).1, fun f hf => ⟨((h p hp).2 f hf).1, ((h p hp).2 f hf).2.1⟩⟩,
+   fun p hp f hf => ((h p hp).2 f hf).2.2⟩
+
+theorem llParas_good (s : Str) (ps : List DNode) (h : llParas s = .ok ps) :
+    ∀ p ∈ ps, ∀ f ∈ items p, GoodField f := by
+  unfold llParas at h
+  cases hr : readStrict s with
+  | error e => rw [hr] at h; simp at h
+  | ok t =>
+    rw [hr] at h
+    simp only [Except.ok.injEq] at h
+    subst h
+    intro p hp f hf
+    have := readStrict_fields s t hr (items p) (by simp only [docItems, List.mem_map]; exact ⟨p, hp, rfl⟩)
+    exact this.2 f hf
+
+theorem llPara_good (s : Str) (p : DNode) (h : llPara s = .ok p) : ∀ f ∈ items p, GoodField f := by
+  unfold llPara at h
+  cases hr : readStrict s with
+  | error e => rw [hr] at h; simp at h
+  | ok t =>
+    rw [hr] at h
+    simp only at h
+    cases hp : paragraphs t with
+    | nil => rw [hp] at h; simp at h
+    | cons q qs =>
+      rw [hp] at h
+      simp only [Except.ok.injEq] at h
+      subst h
+      intro f hf
+      have := readStrict_fields s t hr (items q) (by simp [docItems, hp])
+      exact this.2 f hf
+
+theorem paraOf_ne_nil (spec : Spec) (v : SV) (hg : Good spec v)
+    (hm : ∃ f ∈ spec, f.optional = false) : paraOf spec v ≠ [] := by
+  obtain ⟨f, hf, hfm⟩ := hm
+  have := present_of_mandatory spec v hg.nodup hg.wf f hf hfm
+  intro e; rw [e] at this; simp [lookupFirst] at this
+
+/-! ### removal record / buildinfo -/
+
+/-- **removal record, buildinfo**: whatever text parsed to `v`, printing `v` gives a text that parses
+    to `v` again (and therefore prints identically again) -/
+theorem C20_roundtrip_losslessPara (spec : Spec) (hs : SpecOK spec) (hm : ∃ f ∈ spec, f.optional = false)
+    (s : Str) (v : SV) (h : TypedDoc.parse (.losslessPara spec) s = .ok (.single v)) :
+    TypedDoc.parse (.losslessPara spec) (TypedDoc.print (.losslessPara spec) (.single v)) = .ok (.single v) := by
+  simp only [TypedDoc.parse, parseLosslessPara] at h
+  cases hp : llPara s with
+  | error e => rw [hp] at h; simp at h
+  | ok p =>
+    rw [hp] at h
+    simp only at h
+    cases hv : fromLL spec p with
+    | error e => rw [hv] at h; simp at h
+    | ok v' =>
+      rw [hv] at h
+      simp only [Except.ok.injEq, TV.single.injEq] at h
+      subst h
+      obtain ⟨hg, hc⟩ := fromLL_good spec hs p (llPara_good s p hp) v' hv
+      have hpc := printsCanon_of_paras [paraOf spec v'] (by
+        intro q hq; simp at hq; subst hq; exact ⟨paraOf_ne_nil spec v' hg hm, hc⟩)
+      exact C20_stable_losslessPara spec v' hg ⟨hpc.1, hpc.2⟩
+
+/-! ### DEP-3 header -/
+
+theorem fallback_good (key : Str) (alt : Option Str) (spec : Spec) (v : SV)
+    (hk : ∀ f ∈ spec, f.key = key → (f.optional = true ∧ ∀ t, f.de t = .ok (.str t) ∧ f.ser (.str t) = t))
+    (ha : ∀ t, alt = some t → GoodText t)
+    (hw : WellFormed spec v) (hc : CodecsRoundTrip spec v)
+    (hp : ∀ e ∈ toFields spec v, ValidKey e.1 ∧ GoodText e.2) (hvk : ∀ f ∈ spec, ValidKey f.key) :
+    WellFormed spec (fallback key alt spec v) ∧ CodecsRoundTrip spec (fallback key alt spec v)
+    ∧ ∀ e ∈ toFields spec (fallback key alt spec v), ValidKey e.1 ∧ GoodText e.2 := by
+  induction spec generalizing v with
+  | nil => cases v <;> exact ⟨hw, hc, hp⟩
+  | cons f fs ih =>
+    cases v with
+    | nil => simp [WellFormed] at hw
+    | cons x xs =>
+      simp only [WellFormed] at hw
+      simp only [fallback]
+      by_cases hf : f.key = key
+      · simp only [hf, ↓reduceIte]
+        cases x with
+        | some y => exact ⟨by simpa [WellFormed] using hw, hc, hp⟩
+        | none =>
+          simp only [CodecsRoundTrip, toFields] at hc hp
+          cases alt with
+          | none => exact ⟨hw, hc, hp⟩
+          | some t =>
+            obtain ⟨_, hstr⟩ := hk f (by simp) hf
+            simp only [Option.map_some, WellFormed, CodecsRoundTrip, toFields, List.mem_cons]
+            refine ⟨⟨by simp, hw.2⟩, ⟨by rw [(hstr t).2]; exact (hstr t).1, hc⟩, ?_⟩
+            intro e he
+            rcases he with rfl | he
+            · exact ⟨hvk f (by simp), by rw [(hstr t).2]; exact ha t rfl⟩
+            · exact hp e he
+      · simp only [hf, ↓reduceIte]
+        cases x with
+        | none =>
+          simp only [CodecsRoundTrip, toFields] at hc hp
+          obtain ⟨i1, i2, i3⟩ := ih xs (fun f' hf' => hk f' (by simp [hf'])) hw.2 hc hp
+            (fun f' hf' => hvk f' (by simp [hf']))
+          exact ⟨⟨hw.1, i1⟩, by simpa [CodecsRoundTrip] using i2, by simpa [toFields] using i3⟩
+        | some y =>
+          simp only [CodecsRoundTrip, toFields, List.mem_cons] at hc hp
+          obtain ⟨i1, i2, i3⟩ := ih xs (fun f' hf' => hk f' (by simp [hf'])) hw.2 hc.2
+            (fun e he => hp e (Or.inr he)) (fun f' hf' => hvk f' (by simp [hf']))
+          refine ⟨⟨hw.1, i1⟩, ⟨hc.1, i2⟩, ?_⟩
+          intro e he
+          simp only [toFields, List.mem_cons] at he
+          rcases he with rfl | he
+          · exact hp _ (Or.inl rfl)
+          · exact i3 e he
+
+/-- **DEP-3 header**: whatever text parsed to `v` — the `From`/`Subject` fall-backs included — printing
+    `v` gives a text that parses to `v` again.  The only exception is finding F-C20-4 (a header
+    without any known field prints as the empty text): `hne` mirrors its trigger. -/
+theorem C20_roundtrip_dep3 (spec : Spec) (hs : SpecOK spec)
+    (hFrom : kFrom ∉ specKeys spec) (hSubject : kSubject ∉ specKeys spec)
+    (hstr : ∀ f ∈ spec, (f.key = kAuthor ∨ f.key = kDescription) →
+      (f.optional = true ∧ ∀ t, f.de t = .ok (.str t) ∧ f.ser (.str t) = t))
+    (s : Str) (v : SV) (h : TypedDoc.parse (.dep3 spec) s = .ok (.single v))
+    (hne : paraOf spec v ≠ []) :
+    TypedDoc.parse (.dep3 spec) (TypedDoc.print (.dep3 spec) (.single v)) = .ok (.single v) := by
+  simp only [TypedDoc.parse, parseDep3] at h
+  cases hp : llPara s with
+  | error e => rw [hp] at h; simp at h
+  | ok p =>
+    rw [hp] at h
+    simp only at h
+    cases hv : fromLL spec p with
+    | error e => rw [hv] at h; simp at h
+    | ok v0 =>
+      rw [hv] at h
+      simp only [Except.ok.injEq, TV.single.injEq] at h
+      have hgood := llPara_good s p hp
+      obtain ⟨hg, hc⟩ := fromLL_good spec hs p hgood v0 hv
+      have hvk : ∀ f ∈ spec, ValidKey f.key := fun f hf => (hs.fields f hf).validKey
+      have hgt := get_goodText p hgood
+      obtain ⟨a1, a2, a3⟩ := fallback_good kAuthor (Deb.get p kFrom) spec v0
+        (fun f hf hk => hstr f hf (Or.inl hk)) (fun t ht => hgt _ t ht) hg.wf hg.codecs hc hvk
+      obtain ⟨b1, b2, b3⟩ := fallback_good kDescription (Deb.get p kSubject) spec _
+        (fun f hf hk => hstr f hf (Or.inr hk)) (fun t ht => hgt _ t ht) a1 a2 a3 hvk
+      rw [h] at b1 b2 b3
+      have hgv : Good spec v := ⟨hs.nodup, b1, b2⟩
+      have hpc := printsCanon_of_paras [paraOf spec v] (by
+        intro q hq; simp at hq; subst hq; exact ⟨hne, b3⟩)
+      exact C20_stable_dep3 spec v hgv ⟨hpc.1, hpc.2⟩ hFrom hSubject
+
+/-! ### APT sources list -/
+
+theorem reposLoop_ok_all (R : Spec) (ps : List DNode) (l : List SV) (h : reposLoop R ps = .ok l) :
+    ∀ r ∈ l, ∃ p ∈ ps, fromLL R p = .ok r := by
+  induction ps generalizing l with
+  | nil => simp [reposLoop] at h; subst h; simp
+  | cons p ps ih =>
+    simp only [reposLoop] at h
+    cases hv : fromLL R p with
+    | error e => rw [hv] at h; simp at h
+    | ok r0 =>
+      rw [hv] at h
+      simp only at h
+      cases hr : reposLoop R ps with
+      | error e => rw [hr] at h; simp at h
+      | ok rs =>
+        rw [hr] at h
+        simp only [Except.ok.injEq] at h
+        subst h
+        intro r hr'
+        simp only [List.mem_cons] at hr'
+        rcases hr' with rfl | hr'
+        · exact ⟨p, by simp, hv⟩
+        · obtain ⟨q, hq, hqv⟩ := ih rs hr r hr'
+          exact ⟨q, by simp [hq], hqv⟩
+
+/-- **APT sources list**: whatever text parsed to the list `l`, printing it gives a text that parses
+    to `l` again -/
+theorem C20_roundtrip_repos (R : Spec) (hs : SpecOK R) (hm : ∃ f ∈ R, f.optional = false)
+    (s : Str) (l : List SV) (h : TypedDoc.parse (.repos R) s = .ok (.repos l)) :
+    TypedDoc.parse (.repos R) (TypedDoc.print (.repos R) (.repos l)) = .ok (.repos l) := by
+  simp only [TypedDoc.parse, parseRepos] at h
+  cases hp : llParas s with
+  | error e => rw [hp] at h; simp at h
+  | ok ps =>
+    rw [hp] at h
+    simp only at h
+    cases hr : reposLoop R ps with
+    | error e => rw [hr] at h; simp at h
+    | ok rs =>
+      rw [hr] at h
+      simp only [Except.ok.injEq, TV.repos.injEq] at h
+      subst h
+      have hall := reposLoop_ok_all R ps rs hr
+      have hgood := llParas_good s ps hp
+      have hvals : ∀ r ∈ rs, Good R r ∧ ∀ e ∈ paraOf R r, ValidKey e.1 ∧ GoodText e.2 := by
+        intro r hr'
+        obtain ⟨p, hpm, hv⟩ := hall r hr'
+        exact fromLL_good R hs p (hgood p hpm) r hv
+      have hpc := printsCanon_of_paras (rs.map (paraOf R)) (by
+        intro q hq
+        simp only [List.mem_map] at hq
+        obtain ⟨r, hr', rfl⟩ := hq
+        exact ⟨paraOf_ne_nil R r (hvals r hr').1 hm, (hvals r hr').2⟩)
+      exact C20_stable_repos R rs (fun r hr' => (hvals r hr').1) ⟨hpc.1, hpc.2⟩
+
+/-! ### control file -/
+
+theorem controlLoop_ok_vals (S B : Spec) (ps : List DNode) (src0 : Option SV) (bins0 : List SV)
+    (src : SV) (bins : List SV) (h : controlLoop S B ps src0 bins0 = .ok (.control src bins)) :
+    (src0 = some src ∨ ∃ p ∈ ps, fromLL S p = .ok src)
+    ∧ ∀ b ∈ bins, b ∈ bins0 ∨ ∃ p ∈ ps, fromLL B p = .ok b := by
+  induction ps generalizing src0 bins0 with
+  | nil =>
+    simp only [controlLoop] at h
+    cases src0 with
+    | none => simp at h
+    | some s0 =>
+      simp only [Except.ok.injEq, TV.control.injEq] at h
+      obtain ⟨rfl, rfl⟩ := h
+      exact ⟨Or.inl rfl, fun b hb => Or.inl hb⟩
+  | cons p ps ih =>
+    simp only [controlLoop] at h
+    by_cases hp : (Deb.get p kPackage).isSome = true
+    · simp only [hp, ↓reduceIte] at h
+      cases hb : fromLL B p with
+      | error e => rw [hb] at h; simp at h
+      | ok b0 =>
+        rw [hb] at h
+        obtain ⟨h1, h2⟩ := ih _ _ h
+        refine ⟨?_, ?_⟩
+        · rcases h1 with h1 | ⟨q, hq, hqv⟩
+          · exact Or.inl h1
+          · exact Or.inr ⟨q, by simp [hq], hqv⟩
+        · intro b hbm
+          rcases h2 b hbm with h2 | ⟨q, hq, hqv⟩
+          · simp only [List.mem_append, List.mem_singleton] at h2
+            rcases h2 with h2 | rfl
+            · exact Or.inl h2
+            · exact Or.inr ⟨p, by simp, hb⟩
+          · exact Or.inr ⟨q, by simp [hq], hqv⟩
+    · simp only [hp, Bool.false_eq_true, ↓reduceIte] at h
+      by_cases hsrc : (Deb.get p kSource).isSome = true
+      · simp only [hsrc, ↓reduceIte] at h
+        cases src0 with
+        | some s0 => simp at h
+        | none =>
+          simp only [Option.isSome_none, Bool.false_eq_true, ↓reduceIte] at h
+          cases hsv : fromLL S p with
+          | error e => rw [hsv] at h; simp at h
+          | ok sv =>
+            rw [hsv] at h
+            obtain ⟨h1, h2⟩ := ih _ _ h
+            refine ⟨?_, ?_⟩
+            · rcases h1 with h1 | ⟨q, hq, hqv⟩
+              · simp only [Option.some.injEq] at h1; subst h1
+                exact Or.inr ⟨p, by simp, hsv⟩
+              · exact Or.inr ⟨q, by simp [hq], hqv⟩
+            · intro b hbm
+              rcases h2 b hbm with h2 | ⟨q, hq, hqv⟩
+              · exact Or.inl h2
+              · exact Or.inr ⟨q, by simp [hq], hqv⟩
+      · simp [hsrc] at h
+
+/-- **control file**: whatever text parsed to (source, binaries) — paragraphs in any order, comments,
+    any layout the lossless reader accepts — printing the value gives a text that parses to the same
+    value.  `hS*`/`hB*` are facts about the two structs (see `C20_table_facts`). -/
+theorem C20_roundtrip_control (S B : Spec) (hS : SpecOK S) (hB : SpecOK B)
+    (hNoPkg : kPackage ∉ specKeys S)
+    (hSrcF : ∃ f ∈ S, f.key = kSource ∧ f.optional = false)
+    (hPkgF : ∃ f ∈ B, f.key = kPackage ∧ f.optional = false)
+    (s : Str) (src : SV) (bins : List SV)
+    (h : TypedDoc.parse (.control S B) s = .ok (.control src bins)) :
+    TypedDoc.parse (.control S B) (TypedDoc.print (.control S B) (.control src bins)) = .ok (.control src bins) := by
+  simp only [TypedDoc.parse, parseControl] at h
+  cases hp : llParas s with
+  | error e => rw [hp] at h; simp at h
+  | ok ps =>
+    rw [hp] at h
+    simp only at h
+    obtain ⟨h1, h2⟩ := controlLoop_ok_vals S B ps none [] src bins h
+    have hgood := llParas_good s ps hp
+    have hsrc : Good S src ∧ ∀ e ∈ paraOf S src, ValidKey e.1 ∧ GoodText e.2 := by
+      rcases h1 with h1 | ⟨p, hpm, hv⟩
+      · simp at h1
+      · exact fromLL_good S hS p (hgood p hpm) src hv
+    have hbin : ∀ b ∈ bins, Good B b ∧ ∀ e ∈ paraOf B b, ValidKey e.1 ∧ GoodText e.2 := by
+      intro b hb
+      rcases h2 b hb with h2 | ⟨p, hpm, hv⟩
+      · simp at h2
+      · exact fromLL_good B hB p (hgood p hpm) b hv
+    obtain ⟨fs, hfs, hfk, hfm⟩ := hSrcF
+    obtain ⟨fb, hfb, hbk, hbm⟩ := hPkgF
+    have hpc := printsCanon_of_paras (docControl S B src bins) (by
+      intro q hq
+      simp only [docControl, List.mem_cons, List.mem_map] at hq
+      rcases hq with rfl | ⟨b, hb, rfl⟩
+      · exact ⟨paraOf_ne_nil S src hsrc.1 ⟨fs, hfs, hfm⟩, hsrc.2⟩
+      · exact ⟨paraOf_ne_nil B b (hbin b hb).1 ⟨fb, hfb, hbm⟩, (hbin b hb).2⟩)
+    refine C20_stable_control S B src bins hsrc.1 (fun b hb => (hbin b hb).1) ⟨hpc.1, hpc.2⟩ hNoPkg ?_ ?_
+    · rw [← hfk]; exact present_of_mandatory S src hS.nodup hsrc.1.wf fs hfs hfm
+    · intro b hb
+      rw [← hbk]; exact present_of_mandatory B b hB.nodup (hbin b hb).1.wf fb hfb hbm
+
+/-! ### copyright file (with the `Files` lists of finding F-C20-5 as the stated exception) -/
+
+/-- `FieldOK` with the canonicity of the printed form waived for the keys in `ex` -/
+structure FieldOKx (ex : Str → Prop) (f : FieldSpec Val) : Prop where
+  validKey : ValidKey f.key
+  stable : ∀ t y, f.de t = .ok y → f.de (f.ser y) = .ok y
+  canon : ¬ ex f.key → ∀ t y, GoodText t → f.de t = .ok y → GoodText (f.ser y)
+
+theorem fromFields_goodx (ex : Str → Prop) (g : Str → Option Str) (spec : Spec) (v : SV)
+    (hg : ∀ k t, g k = some t → GoodText t) (hs : ∀ f ∈ spec, FieldOKx ex f)
+    (h : fromFields g spec = .ok v) :
+    WellFormed spec v ∧ CodecsRoundTrip spec v
+    ∧ ∀ e ∈ toFields spec v, ValidKey e.1 ∧ (¬ ex e.1 → GoodText e.2) := by
+  induction spec generalizing v with
+  | nil => simp [fromFields] at h; subst h; simp [WellFormed, CodecsRoundTrip, toFields]
+  | cons f fs ih =>
+    simp only [fromFields] at h
+    cases hr : readField g f with
+    | error e => rw [hr] at h; simp at h
+    | ok x =>
+      rw [hr] at h
+      simp only at h
+      cases hf : fromFields g fs with
+      | error e => rw [hf] at h; simp at h
+      | ok xs =>
+        rw [hf] at h
+        simp only [Except.ok.injEq] at h
+        subst h
+        obtain ⟨i1, i2, i3⟩ := ih xs (fun f' hf' => hs f' (by simp [hf'])) hf
+        have hfo := hs f (by simp)
+        unfold readField at hr
+        cases hgk : g f.key with
+        | none =>
+          rw [hgk] at hr
+          cases ho : f.optional with
+          | false => simp [ho] at hr
+          | true =>
+            simp [ho] at hr; subst hr
+            exact ⟨⟨by simp [ho], i1⟩, i2, i3⟩
+        | some t =>
+          rw [hgk] at hr
+          cases hd : f.de t with
+          | error e => simp [hd] at hr
+          | ok y =>
+            simp [hd] at hr; subst hr
+            refine ⟨⟨by simp, i1⟩, ⟨hfo.stable t y hd, i2⟩, ?_⟩
+            intro e he
+            simp only [toFields, List.mem_cons] at he
+            rcases he with rfl | he
+            · exact ⟨hfo.validKey, fun hex => hfo.canon hex t y (hg _ _ hgk) hd⟩
+            · exact i3 e he
+
+theorem fromLL_goodx (ex : Str → Prop) (spec : Spec) (hn : (specKeys spec).Nodup)
+    (hs : ∀ f ∈ spec, FieldOKx ex f) (p : DNode) (hp : ∀ f ∈ items p, GoodField f)
+    (v : SV) (h : fromLL spec p = .ok v) :
+    Good spec v ∧ ∀ e ∈ paraOf spec v, ValidKey e.1 ∧ (¬ ex e.1 → GoodText e.2) := by
+  have hff : fromFields (Deb.get p) spec = .ok v := by
+    unfold fromLL liftMsg at h
+    cases hf : fromFields (Deb.get p) spec with
+    | ok x => rw [hf] at h; simp at h; rw [h]
+    | error e => rw [hf] at h; simp at h
+  obtain ⟨h1, h2, h3⟩ := fromFields_goodx ex _ spec v (get_goodText p hp) hs hff
+  exact ⟨⟨hn, h1, h2⟩, h3⟩
+
+theorem copyrightLoop_ok_vals (F L : Spec) (ps : List DNode) (fs0 ls0 : List SV) (r : List SV × List SV)
+    (h : copyrightLoop F L ps fs0 ls0 = .ok r) :
+    (∀ f ∈ r.1, f ∈ fs0 ∨ ∃ p ∈ ps, fromLL F p = .ok f) ∧ (∀ l ∈ r.2, l ∈ ls0 ∨ ∃ p ∈ ps, fromLL L p = .ok l) := by
+  induction ps generalizing fs0 ls0 with
+  | nil =>
+    simp only [copyrightLoop, Except.ok.injEq] at h
+    subst h
+    exact ⟨fun f hf => Or.inl hf, fun l hl => Or.inl hl⟩
+  | cons p ps ih =>
+    simp only [copyrightLoop] at h
+    by_cases hf : (Deb.get p kFiles).isSome = true
+    · simp only [hf, ↓reduceIte] at h
+      cases hv : fromLL F p with
+      | error e => rw [hv] at h; simp at h
+      | ok x =>
+        rw [hv] at h
+        obtain ⟨h1, h2⟩ := ih _ _ h
+        refine ⟨?_, ?_⟩
+        · intro f hfm
+          rcases h1 f hfm with h1 | ⟨q, hq, hqv⟩
+          · simp only [List.mem_append, List.mem_singleton] at h1
+            rcases h1 with h1 | rfl
+            · exact Or.inl h1
+            · exact Or.inr ⟨p, by simp, hv⟩
+          · exact Or.inr ⟨q, by simp [hq], hqv⟩
+        · intro l hl
+          rcases h2 l hl with h2 | ⟨q, hq, hqv⟩
+          · exact Or.inl h2
+          · exact Or.inr ⟨q, by simp [hq], hqv⟩
+    · simp only [hf, Bool.false_eq_true, ↓reduceIte] at h
+      by_cases hl : (Deb.get p kLicense).isSome = true
+      · simp only [hl, ↓reduceIte] at h
+        cases hv : fromLL L p with
+        | error e => rw [hv] at h; simp at h
+        | ok x =>
+          rw [hv] at h
+          obtain ⟨h1, h2⟩ := ih _ _ h
+          refine ⟨?_, ?_⟩
+          · intro f hfm
+            rcases h1 f hfm with h1 | ⟨q, hq, hqv⟩
+            · exact Or.inl h1
+            · exact Or.inr ⟨q, by simp [hq], hqv⟩
+          · intro l hlm
+            rcases h2 l hlm with h2 | ⟨q, hq, hqv⟩
+            · simp only [List.mem_append, List.mem_singleton] at h2
+              rcases h2 with h2 | rfl
+              · exact Or.inl h2
+              · exact Or.inr ⟨p, by simp, hv⟩
+            · exact Or.inr ⟨q, by simp [hq], hqv⟩
+      · simp [hl] at h
+
+/-- the keys whose printed list is the subject of finding F-C20-5 -/
+def isFilesKey (k : Str) : Prop := k = c!"Files" ∨ k = c!"Files-Excluded"
+
+/-- **copyright file**: whatever text parsed to (header, Files paragraphs, licence paragraphs) — in any
+    order after the header — printing the value gives a text that parses to the same value.  The only
+    exception is finding F-C20-5: `hFilesLists` requires the printed `Files` / `Files-Excluded` lists
+    to be good text (false exactly when a later pattern starts with `#`, the finding's trigger). -/
+theorem C20_roundtrip_copyright (H F L : Spec)
+    (hnH : (specKeys H).Nodup) (hnF : (specKeys F).Nodup) (hnL : (specKeys L).Nodup)
+    (hH : ∀ f ∈ H, FieldOKx isFilesKey f) (hF : ∀ f ∈ F, FieldOKx isFilesKey f) (hL : ∀ f ∈ L, FieldOKx isFilesKey f)
+    (hFormatF : ∃ f fs, H = f :: fs ∧ f.key = c!"Format" ∧ f.optional = false)
+    (hFilesF : ∃ f ∈ F, f.key = kFiles ∧ f.optional = false)
+    (hLicF : ∃ f ∈ L, f.key = kLicense ∧ f.optional = false)
+    (hNoFiles : kFiles ∉ specKeys L)
+    (s : Str) (h : SV) (fs ls : List SV)
+    (hparse : TypedDoc.parse (.copyright H F L) s = .ok (.copyright h fs ls))
+    (hFilesLists : ∀ q ∈ docCopyright H F L h fs ls, ∀ e ∈ q, isFilesKey e.1 → GoodText e.2) :
+    TypedDoc.parse (.copyright H F L) (TypedDoc.print (.copyright H F L) (.copyright h fs ls))
+      = .ok (.copyright h fs ls) := by
+  simp only [TypedDoc.parse, parseCopyright] at hparse
+  split at hparse
+  · simp at hparse
+  · cases hp : llParas s with
+    | error e => rw [hp] at hparse; simp at hparse
+    | ok ps =>
+      rw [hp] at hparse
+      cases ps with
+      | nil => simp at hparse
+      | cons p ps' =>
+        simp only at hparse
+        cases hh : fromLL H p with
+        | error e => rw [hh] at hparse; simp at hparse
+        | ok hv =>
+          rw [hh] at hparse
+          simp only at hparse
+          cases hr : copyrightLoop F L ps' [] [] with
+          | error e => rw [hr] at hparse; simp at hparse
+          | ok r =>
+            rw [hr] at hparse
+            simp only [Except.ok.injEq, TV.copyright.injEq] at hparse
+            obtain ⟨rfl, rfl, rfl⟩ := hparse
+            have hgood := llParas_good s (p :: ps') hp
+            obtain ⟨hgh, hch⟩ := fromLL_goodx isFilesKey H hnH hH p (hgood p (by simp)) hv hh
+            obtain ⟨v1, v2⟩ := copyrightLoop_ok_vals F L ps' [] [] r hr
+            have hfv : ∀ f ∈ r.1, Good F f ∧ ∀ e ∈ paraOf F f, ValidKey e.1 ∧ (¬ isFilesKey e.1 → GoodText e.2) := by
+              intro f hf
+              rcases v1 f hf with h1 | ⟨q, hq, hqv⟩
+              · simp at h1
+              · exact fromLL_goodx isFilesKey F hnF hF q (hgood q (by simp [hq])) f hqv
+            have hlv : ∀ l ∈ r.2, Good L l ∧ ∀ e ∈ paraOf L l, ValidKey e.1 ∧ (¬ isFilesKey e.1 → GoodText e.2) := by
+              intro l hl
+              rcases v2 l hl with h1 | ⟨q, hq, hqv⟩
+              · simp at h1
+              · exact fromLL_goodx isFilesKey L hnL hL q (hgood q (by simp [hq])) l hqv
+            obtain ⟨f0, fs0, hH0, hk0, hm0⟩ := hFormatF
+            obtain ⟨ff, hff, hfk, hfm⟩ := hFilesF
+            obtain ⟨fl, hfl, hlk, hlm⟩ := hLicF
+            have hgt : ∀ q ∈ docCopyright H F L hv r.1 r.2, ∀ e ∈ q, ValidKey e.1 ∧ (¬ isFilesKey e.1 → GoodText e.2) := by
+              intro q hq
+              simp only [docCopyright, List.mem_cons, List.mem_append, List.mem_map] at hq
+              rcases hq with rfl | ⟨f, hf, rfl⟩ | ⟨l, hl, rfl⟩
+              · exact hch
+              · exact (hfv f hf).2
+              · exact (hlv l hl).2
+            have hpc := printsCanon_of_paras (docCopyright H F L hv r.1 r.2) (by
+              intro q hq
+              refine ⟨?_, ?_⟩
+              · simp only [docCopyright, List.mem_cons, List.mem_append, List.mem_map] at hq
+                rcases hq with rfl | ⟨f, hf, rfl⟩ | ⟨l, hl, rfl⟩
+                · exact paraOf_ne_nil H hv hgh ⟨f0, by simp [hH0], hm0⟩
+                · exact paraOf_ne_nil F f (hfv f hf).1 ⟨ff, hff, hfm⟩
+                · exact paraOf_ne_nil L l (hlv l hl).1 ⟨fl, hfl, hlm⟩
+              · intro e he
+                refine ⟨(hgt q hq e he).1, ?_⟩
+                by_cases hex : isFilesKey e.1
+                · exact hFilesLists q hq e he hex
+                · exact (hgt q hq e he).2 hex)
+            have hFormat : ∃ v0 rest, paraOf H hv = (c!"Format", v0) :: rest := by
+              subst hH0
+              have hw := hgh.wf
+              cases hv with
+              | nil => simp [WellFormed] at hw
+              | cons x xs =>
+                simp only [WellFormed] at hw
+                cases x with
+                | none => have := hw.1 hm0; simp at this
+                | some y => exact ⟨f0.ser y, toFields fs0 xs, by simp [paraOf, toFields, hk0]⟩
+            refine C20_stable_copyright H F L hv r.1 r.2 hgh (fun f hf => (hfv f hf).1)
+              (fun l hl => (hlv l hl).1) ⟨hpc.1, hpc.2⟩ hFormat ?_ hNoFiles ?_
+            · intro f hf
+              rw [← hfk]; exact present_of_mandatory F f hnF (hfv f hf).1.wf ff hff hfm
+            · intro l hl
+              rw [← hlk]; exact present_of_mandatory L l hnL (hlv l hl).1.wf fl hfl hlm
+
+/-! ### the leaf codecs meet `FieldOK` -/
+
+/-- the two codec-level conditions of `FieldOK` -/
+def CodecOK (c : LeafCodec) : Prop :=
+  (∀ t y, c.de t = .ok y → c.de (c.ser y) = .ok y)
+  ∧ (∀ t y, GoodText t → c.de t = .ok y → GoodText (c.ser y))
+
+theorem fieldOK_of_codec (key : Str) (opt : Bool) (c : LeafCodec) (hk : ValidKey key) (hc : CodecOK c) :
+    FieldOK ⟨key, opt, c.ser, c.de⟩ := ⟨hk, hc.1, hc.2⟩
+
+theorem goodText_of_line (v : Str) (hc : CanonLines (Text.splitOn '\n' v))
+    (hne : (Text.splitOn '\n' v).head? ≠ some []) : GoodText v := ⟨hc, fun h => absurd h hne⟩
+
+/-- codecs whose printed form of a read value is the text that was read -/
+theorem codecOK_of_identity (c : LeafCodec) (h : ∀ t y, c.de t = .ok y → c.ser y = t) : CodecOK c :=
+  ⟨fun t y hd => by rw [h t y hd]; exact hd, fun t y hg hd => by rw [h t y hd]; exact hg⟩
+
+theorem str_codecOK : CodecOK strCodec := by
+  apply codecOK_of_identity
+  intro t y h
+  have : y = .str t := by
+    simp only [strCodec] at h
+    exact (Except.ok.inj h).symm
+  subst this; rfl
+
+theorem splitLines_codecOK : CodecOK splitLinesCodec := by
+  apply codecOK_of_identity
+  intro t y h
+  have hy : y = .list (if t = [] then [] else Text.splitOn '\n' t) := (Except.ok.inj h).symm
+  subst hy
+  show joinWith ['\n'] (if t = [] then [] else Text.splitOn '\n' t) = t
+  split
+  · rename_i ht; rw [ht]; rfl
+  · exact join_splitOn t
+
+theorem splitOnFirst_char_eq (ch : Char) (l k v : Str) (h : Codec.splitOnFirst [ch] l = some (k, v)) :
+    l = k ++ ch :: v := by
+  induction l generalizing k with
+  | nil => simp [Codec.splitOnFirst] at h
+  | cons c cs ih =>
+    simp only [Codec.splitOnFirst] at h
+    split at h
+    · rename_i hp
+      simp at h
+      have hc : c = ch := by
+        have : ch = c := by simpa [List.isPrefixOf] using hp
+        exact this.symm
+      subst hc
+      obtain ⟨rfl, rfl⟩ := h
+      simp
+    · cases hr : Codec.splitOnFirst [ch] cs with
+      | none => rw [hr] at h; simp at h
+      | some r =>
+        rw [hr] at h
+        simp only [Option.some.injEq, Prod.mk.injEq] at h
+        obtain ⟨rfl, rfl⟩ := h
+        rw [ih r.1 (by rw [hr])]; simp
+
+theorem license_codecOK : CodecOK licenseCodec := by
+  apply codecOK_of_identity
+  intro t y h
+  have hy : y = .license (Codec.License.parse t) := (Except.ok.inj h).symm
+  subst hy
+  show (Codec.License.parse t).print = t
+  simp only [Codec.License.parse]
+  cases hs : Codec.splitOnFirst ['\n'] t with
+  | none => rfl
+  | some r =>
+    have := splitOnFirst_char_eq '\n' t r.1 r.2 (by rw [hs])
+    simp only
+    split
+    · rename_i he; rw [this, he]; rfl
+    · rw [this]; rfl
+
+theorem bool_codecOK : CodecOK boolCodec := by
+  have himg : ∀ t y, boolCodec.de t = .ok y → ∃ b, y = .bool b := by
+    intro t y h
+    simp only [boolCodec] at h
+    split at h
+    · exact ⟨true, by simpa using h.symm⟩
+    · split at h
+      · exact ⟨false, by simpa using h.symm⟩
+      · simp at h
+  refine ⟨fun t y h => C16.bool_ok y (himg t y h), ?_⟩
+  intro t y _ h
+  obtain ⟨b, rfl⟩ := himg t y h
+  have hc := C20_canon_keywords.2.1 b
+  cases b <;> exact goodText_of_line _ hc (by decide +kernel)
+
+theorem yesno_codecOK (err : Str → Str) : CodecOK (yesnoCodec err) := by
+  have himg : ∀ t y, (yesnoCodec err).de t = .ok y → ∃ b, y = .bool b := by
+    intro t y h
+    simp only [yesnoCodec] at h
+    split at h
+    · exact ⟨true, by simpa using h.symm⟩
+    · split at h
+      · exact ⟨false, by simpa using h.symm⟩
+      · simp at h
+  refine ⟨fun t y h => C16.yesno_ok err y (himg t y h), ?_⟩
+  intro t y _ h
+  obtain ⟨b, rfl⟩ := himg t y h
+  have hc := C20_canon_keywords.2.2 b
+  have hne : ∀ b, (Text.splitOn '\n' (yesnoText b)).head? ≠ some [] := by decide +kernel
+  exact goodText_of_line _ hc (hne b)
+
+theorem parseOf_mem_variants : ∀ e ∈ Gen.Enums.all, ∀ kw ∈ Enum.accepted e,
+    ∀ k, Enum.lookup kw e.parseTab = some k → k ∈ e.variants ∧ (Enum.printOf e k).getD [] ∈ Enum.printed e := by
+  decide +kernel
+
+theorem enum_codecOK (e : Enum.EnumSpec) (he : e ∈ Gen.Enums.all) (err : Str → Str)
+    (hok : C16.KindOK (.modelled (enumCodec e err))) : CodecOK (enumCodec e err) := by
+  have himg : ∀ t y, (enumCodec e err).de t = .ok y →
+      ∃ k, y = .kw k ∧ k ∈ e.variants ∧ (Enum.printOf e k).getD [] ∈ Enum.printed e := by
+    intro t y h
+    simp only [enumCodec] at h
+    cases hp : Enum.parseOf e t with
+    | none => rw [hp] at h; simp at h
+    | some k =>
+      rw [hp] at h
+      simp only [Except.ok.injEq] at h
+      refine ⟨k, h.symm, ?_⟩
+      have hrej := C18.C18_enum_no_default e he
+      unfold Enum.parseOf at hp
+      cases hl : Enum.lookup (Enum.normalise e.norm t) e.parseTab with
+      | none => rw [hl, hrej] at hp; simp at hp
+      | some k' =>
+        rw [hl] at hp
+        simp only [Option.some.injEq] at hp
+        subst hp
+        have hmem : Enum.normalise e.norm t ∈ Enum.accepted e := by
+          apply Classical.byContradiction
+          intro hn
+          rw [C18.lookup_none_of_not_mem _ _ hn] at hl
+          simp at hl
+        exact parseOf_mem_variants e he _ hmem k' hl
+  refine ⟨fun t y h => ?_, ?_⟩
+  · obtain ⟨k, rfl, hk, _⟩ := himg t y h
+    exact hok (.kw k) ⟨k, rfl, hk⟩
+  · intro t y _ h
+    obtain ⟨k, rfl, _, hp⟩ := himg t y h
+    have hc := C20_canon_keywords.1 e he _ hp
+    refine goodText_of_line _ hc ?_
+    have : ∀ e ∈ Gen.Enums.all, ∀ kw ∈ Enum.printed e, (Text.splitOn '\n' kw).head? ≠ some [] := by decide +kernel
+    exact this e he _ hp
+
+theorem nat_codecOK (bound : Nat) : CodecOK (natCodec bound) := by
+  have himg : ∀ t y, (natCodec bound).de t = .ok y → ∃ n, y = .nat n ∧ n < bound := by
+    intro t y h
+    simp only [natCodec] at h
+    cases hp : parseUnsigned bound t with
+    | error e => rw [hp] at h; simp at h
+    | ok n =>
+      rw [hp] at h
+      simp only [Except.ok.injEq] at h
+      refine ⟨n, h.symm, ?_⟩
+      -- the digit loop only returns values below the bound (or the initial 0 of the empty loop)
+      have hd : ∀ (acc : Nat) (l : Str) (r : Nat), l ≠ [] → unsignedDigits bound acc l = .ok r → r < bound := by
+        intro acc l
+        induction l generalizing acc with
+        | nil => intro r hne; exact absurd rfl hne
+        | cons c cs ih =>
+          intro r _ hr
+          simp only [unsignedDigits] at hr
+          cases hdv : Codec.digitVal c with
+          | none => rw [hdv] at hr; simp at hr
+          | some d =>
+            rw [hdv] at hr
+            simp only at hr
+            split at hr
+            · rename_i hlt
+              cases cs with
+              | nil => simp [unsignedDigits] at hr; rw [← hr]; exact hlt
+              | cons c2 cs2 => exact ih _ r (by simp) hr
+            · simp at hr
+      unfold parseUnsigned at hp
+      split at hp
+      · simp at hp
+      · simp at hp
+      · simp at hp
+      · rename_i rest hrest1
+        exact hd 0 rest n (fun e => hrest1 (by rw [e])) hp
+      · rename_i hs1 hs2 hs3 hs4
+        cases t with
+        | nil => exact absurd rfl hs1
+        | cons a as => exact hd 0 _ n (by simp) hp
+  refine ⟨fun t y h => ?_, ?_⟩
+  · obtain ⟨n, rfl, hn⟩ := himg t y h
+    exact C16.nat_ok bound (.nat n) ⟨n, rfl, hn⟩
+  · intro t y _ h
+    obtain ⟨n, rfl, _⟩ := himg t y h
+    refine goodText_of_line _ (C20_canon_nat n) ?_
+    show (Text.splitOn '\n' (Codec.decDigits n)).head? ≠ some []
+    have hnl : '\n' ∉ Codec.decDigits n := by
+      intro hm
+      have := (C18.decDigits_tok n).2 _ hm
+      exact absurd this (by decide)
+    rw [splitOn_no_nl _ hnl]
+    simp [C18.decDigits_ne_nil n]
+
+/-- the modelled codecs proved to meet the two conditions; the others are hypotheses of the
+    `C20_roundtrip_*` theorems for the fields that use them (see the report) -/
+theorem C20_codecs_ok :
+    CodecOK strCodec ∧ CodecOK boolCodec ∧ (∀ err, CodecOK (yesnoCodec err)) ∧ (∀ b, CodecOK (natCodec b))
+    ∧ CodecOK (enumCodec Gen.Enums.priority errPriority)
+    ∧ CodecOK (enumCodec Gen.Enums.multiArch errMultiArch)
+    ∧ CodecOK (enumCodec Gen.Enums.yesNoForce errRepoType)
+    ∧ CodecOK splitLinesCodec ∧ CodecOK licenseCodec :=
+  ⟨str_codecOK, bool_codecOK, yesno_codecOK, nat_codecOK,
+   enum_codecOK _ (by simp [Gen.Enums.all]) _ C16.priority_ok,
+   enum_codecOK _ (by simp [Gen.Enums.all]) _ C16.multiArch_ok,
+   enum_codecOK _ (by simp [Gen.Enums.all]) _ C16.yesNoForce_ok, splitLines_codecOK, license_codecOK⟩
 
 end Deb822Verif.Props.C20
